@@ -214,4 +214,40 @@ example : let st : Step := ⟨⟨2019, 12, 24⟩, ⟨2020, 1, 7⟩⟩
     stepWF st = true ∧ st.e.y ≤ st.s.y + 1 ∧ yearlyFires 1 1 st = true ∧ endOfYearFires st = true ∧
     monthlyFires st = true := by decide
 
+/-- Each name-built schedule depends on its *own* frequency string and `n` only: two configurations
+    with the same calendar that agree on the quarantine switch, frequency and `n` get the same
+    quarantine schedule, whatever frequencies and `n` the output, mortality and spread-rate
+    schedules use (seeded change C09k: a cache keyed by the frequency string alone); likewise for
+    mortality and the spread rate. -/
+theorem C08_config_own_n (c c' : CalCfg) (s s' : Schedules)
+    (h : createSchedules c = .ok s) (h' : createSchedules c' = .ok s')
+    (hcal : c'.start = c.start ∧ c'.end_ = c.end_ ∧ c'.unit = c.unit ∧ c'.n = c.n) :
+    (c'.useQuarantine = c.useQuarantine → c'.quarFreq = c.quarFreq → c'.quarN = c.quarN → s'.quarantine = s.quarantine) ∧
+    (c'.useMortality = c.useMortality → c'.mortFreq = c.mortFreq → c'.mortN = c.mortN → s'.mortality = s.mortality) ∧
+    (c'.useRates = c.useRates → c'.ratesFreq = c.ratesFreq → c'.ratesN = c.ratesN → s'.rates = s.rates) := by
+  obtain ⟨sc, hsc, -, -, -, -, -, hm1, hm0, hr1, hr0, hq1, hq0, -⟩ := C08_config_wiring c s h
+  obtain ⟨sc', hsc', -, -, -, -, -, hm1', hm0', hr1', hr0', hq1', hq0', -⟩ := C08_config_wiring c' s' h'
+  obtain ⟨e1, e2, e3, e4⟩ := hcal
+  rw [e1, e2, e3, e4, hsc] at hsc'
+  cases hsc'
+  refine ⟨fun hu hf hn => ?_, fun hu hf hn => ?_, fun hu hf hn => ?_⟩
+  · cases hq : c.useQuarantine with
+    | false => rw [hq0 hq, hq0' (hu.trans hq)]
+    | true =>
+      obtain ⟨m, hm, hs⟩ := hq1 hq
+      obtain ⟨m', hm', hs'⟩ := hq1' (hu.trans hq)
+      rw [hf, hn, hm] at hm'; cases hm'; rw [hs, hs']
+  · cases hq : c.useMortality with
+    | false => rw [hm0 hq, hm0' (hu.trans hq)]
+    | true =>
+      obtain ⟨m, hm, hs⟩ := hm1 hq
+      obtain ⟨m', hm', hs'⟩ := hm1' (hu.trans hq)
+      rw [hf, hn, hm] at hm'; cases hm'; rw [hs, hs']
+  · cases hq : c.useRates with
+    | false => rw [hr0 hq, hr0' (hu.trans hq)]
+    | true =>
+      obtain ⟨m, hm, hs⟩ := hr1 hq
+      obtain ⟨m', hm', hs'⟩ := hr1' (hu.trans hq)
+      rw [hf, hn, hm] at hm'; cases hm'; rw [hs, hs']
+
 end Pops
